@@ -228,6 +228,8 @@ class NativeContract(object):
         for pf in (self.post, self.post_native):
             if pf is None:
                 continue
+            if pf is self.post and self.decl.get('post_exact_reals'):
+                continue      # stated over exact reals (floor / multiples): only meaningful symbolically; natively see post_native / the grids
             try:
                 r = pf(*(vals + [actual]))
             except Exception as ex:
@@ -272,6 +274,29 @@ class NativeContract(object):
                     out.append([rng.choice(p) for p in pools])
         return out
 
+    def check_guarded(self, vals, seconds=3):
+        """ check() under an alarm: a native call that does not come back is skipped (reported as not applicable), it must not
+            hang the checker """
+        import signal
+
+        class _Alarm(BaseException):
+            pass
+
+        def handler(signum, frame):
+            raise _Alarm()
+        try:
+            old = signal.signal(signal.SIGALRM, handler)
+        except ValueError:
+            return self.check(vals)
+        signal.setitimer(signal.ITIMER_REAL, seconds)
+        try:
+            return self.check(vals)
+        except _Alarm:
+            return False, True, 'native call exceeded %ds (skipped)' % seconds
+        finally:
+            signal.setitimer(signal.ITIMER_REAL, 0)
+            signal.signal(signal.SIGALRM, old)
+
     def bounded_search(self, rng, limit, deadline=None):
         """ run the real function against the contract on sampled inputs; returns (cases, applicable, failures[:3]) """
         cases = 0
@@ -282,7 +307,7 @@ class NativeContract(object):
                 break
             cases += 1
             try:
-                app, ok, detail = self.check(vals)
+                app, ok, detail = self.check_guarded(vals)
             except Exception as ex:     # checker problem, not a violation
                 app, ok, detail = False, True, 'check raised %r' % (ex,)
             if app:
